@@ -200,6 +200,13 @@ Proof.
 Qed.
 Print Assumptions C19_ias15_compression_invisible.
 
+(* the invisibility is for an unchanged particle number only: remove -> serialise -> add (N back within the old allocation) makes the
+   next step of the OBSERVED run re-allocate and zero, that of the unobserved run not (open finding ias15:stale_arrays_after_remove_then_add) *)
+Theorem C19_compression_visible_when_N_grows_back : exists a n n', n < n' /\ 3 * n' <= a /\
+  ias15_step_reallocates a n' = false /\ ias15_step_reallocates (ias15_compress a n) n' = true.
+Proof. exact ias15_compress_visible_when_N_grows_back. Qed.
+Print Assumptions C19_compression_visible_when_N_grows_back.
+
 Theorem C19_compress_to_real_particles_is_visible : exists a n nvar,
   let a' := if Nat.ltb (3 * (n - nvar)) a then 3 * (n - nvar) else a in
   ias15_step_reallocates a n = false /\ ias15_step_reallocates a' n = true.
